@@ -442,7 +442,9 @@ def r15_13(ctx: Ctx) -> None:
     pa = shared.szf(ctx, "_prepare_append")
     cfg = cfg_of(pa.node)
     snaps = [n for n in walk(pa.node) if isinstance(n, ast.Assign) and norm(n.targets[0]) == "self._header_at_open" and isinstance(n.value, ast.Call)
-             and (dotted(n.value.func) or "").startswith("copy.") and n.value.args and norm(n.value.args[0]) == "self.header"]
+             and dotted(n.value.func) == "copy.deepcopy" and n.value.args and norm(n.value.args[0]) == "self.header"]
+    # ... a DEEP copy, and nothing of it is re-bound to live parts afterwards (a shallow copy shares the member list with the session: after one good
+    # and one failing write the restored header lists a member no folder accounts for)
     ok = bool(snaps) and cfg.every_path_to_exit_passes(cfg.entry, [q.node_for(pa, n) for n in snaps])
     ctx.check(ok, "R15.13", pa, snaps[0] if snaps else pa.node, "an append session keeps a copy of the header it found",
               "_prepare_append does not store a copy of the parsed header in `_header_at_open` (on every path): a session that cannot be completed has nothing to fall back to, "
@@ -488,6 +490,15 @@ def r15_10(ctx: Ctx, rule: str = "R15.10") -> None:
                   "Header.initialize sets `_initialized` before prepare_coderinfo has succeeded: when the filter chain cannot be built the first write call raises, but close() then takes "
                   "the header for initialised, voids the start header and flushes the last folder of the OLD archive (`assert self.compressor`): the archive that existed before the "
                   "append session can no longer be opened", construct="initialised before coder chain")
+    # ... and nothing of the new folder is registered in the header before the chain exists: every append / assignment on the header's lists in
+    # initialize() comes behind prepare_coderinfo (a chain that cannot be built otherwise leaves a folder without coders for close() to serialise)
+    regs = [c for c in q.calls(ini) if attr_tail(c) == "append" and "main_streams" in norm(c.func)] + \
+           [n for n in walk(ini.node) if isinstance(n, (ast.Assign, ast.AugAssign)) and any("main_streams" in norm(t_) for t_ in (n.targets if isinstance(n, ast.Assign) else [n.target]))]
+    for r_ in regs:
+        ok = all(cfg.dominates(q.node_for(ini, p_), q.node_for(ini, r_)) for p_ in prep)
+        ctx.check(ok, rule, ini, r_, "the new folder is registered only after its coder chain has been built",
+                  f"`{norm(r_)[:80]}` in Header.initialize comes before prepare_coderinfo: when the chain cannot be built (a lone branch filter, 7zAES without a password) the first write call "
+                  "raises with the folder already registered - close() serialises a folder without coders, sizes or a packed stream", construct="folder registered before its chain")
     wf = shared.szf(ctx, "_write_flush")
     commits = []
     for c in q.calls(wf):
